@@ -1,16 +1,23 @@
-//! C21 (network2): reassembly lemma for `try_decode_msg`, the incremental decode step behind `AnyMessage::from_payload`.
-//! fn: pallas_network2::behavior::try_decode_msg::<T> (through behavior::verif_hooks), per protocol message type T
+//! C21 (network, original stack): reassembly lemma for `try_decode_message`, the incremental decode step behind `ChannelBuffer::recv_full_msg`.
+//! fn: pallas_network::multiplexer::try_decode_message::<M> (through multiplexer::verif_hooks), per protocol message type M
 //! stub: std::fmt::format -> empty String; std::panic::catch_unwind -> Ok(f()) (tracing::error! is reachable)
-//! outside: the async segment reader `BearerReadHalf::read_full_msgs` (HashMap of per-channel partial buffers, sockets) and the channel -> type dispatch of `AnyMessage::from_payload`; streams of more than two messages and more than one cut: they reduce to this lemma by induction on the number of segments (every strict prefix => incomplete, nothing consumed => retry after append), which is not machine-checked
-//! outside: message pairs other than the listed concrete variant pairs; payloads longer than 3 bytes; handshake and leios message types
-//! assume: `try_decode_msg` returns None both for "incomplete" and for a decode error (it logs the latter): on the prefix the harness can only require None + untouched buffer
+//! outside: the async loop of `ChannelBuffer::recv_full_msg` around the step (tokio channel), the demuxer; streams of more than two messages and more than one cut: they reduce to this lemma by induction on the number of segments (every strict prefix => incomplete, nothing consumed => retry after append), which is not machine-checked
+//! outside: message pairs other than the listed concrete variant pairs; payloads longer than 3 bytes; handshake and node-to-client message types
 use crate::c22::{any_u16, bf, bytes_n, cs, encode_into, ka, point_k, ps, set_class, tx};
-use pallas_network2::behavior::verif_hooks::try_decode_msg;
+use pallas_network::multiplexer::verif_hooks::try_decode_message;
 use std::panic::catch_unwind as cu;
 
 /// one incremental decode step: (signalled an error, returned message)
 fn step<T: pallas_codec::Fragment>(buf: &mut Vec<u8>) -> (bool, Option<T>) {
-    (false, try_decode_msg(buf))
+    let r = try_decode_message::<T>(buf);
+    let out = match r {
+        Ok(x) => (false, x),
+        Err(e) => {
+            core::mem::forget(e);
+            (true, None)
+        }
+    };
+    out
 }
 
 /// `buf == bytes[from..to]`
@@ -130,7 +137,7 @@ fn c21_v_twin() {
     let mut buf: Vec<u8> = Vec::with_capacity(4);
     let b: [u8; 2] = kani::any();
     buf.extend_from_slice(&b);
-    let a: Option<ka::Message> = try_decode_msg(&mut buf);
+    let (_e, a): (bool, Option<ka::Message>) = step(&mut buf);
     assert!(a.is_none(), "twin: must fail");
     core::mem::forget(a);
     core::mem::forget(buf);
